@@ -71,9 +71,50 @@ def run(ctx):
             ctx.ob(R1, fi.qual, "from_int receives the caller's redirect flag", okf, node=s.node)
     # an explicit Retry object is used as is
     fint = m.method(RETRY, "from_int")
-    txt = astq.text(fint.node)
-    ctx.ob(R1, fint.qual, "from_int: None falls back to default, then Retry.DEFAULT; a Retry instance is returned unchanged",
-           "retries = default if default is not None else cls.DEFAULT" in txt and "if isinstance(retries, Retry):\n        return retries" in txt)
+    from ..rows import GenRule, effect_rows
+    from ..terms import T, destruct
+
+    frows = [r for r in effect_rows(ctx, fint, GenRule(ctx, fint.module), RETRY) if r.returns]
+    ctx.sites(R1, len(frows), 3, "returning rows of Retry.from_int")
+    pr, pd, prd = "p:retries", "p:default", "p:redirect"
+    seen_f = set()
+    for r in frows:
+        none_r, none_d = r.is_none(pr), r.is_none(pd)
+        op, args = destruct(r.ret)
+        src = pr if none_r is False else (pd if none_d is False else "cls.DEFAULT")
+        isret = None
+        cur = pr if none_r is False else (pd if none_d is False else None)
+        for key_, v in r.st.ts.items():
+            if isinstance(key_, tuple) and key_ and key_[0] == "isinst" and any("Retry" in (c or "") for c in key_[2]):
+                if (cur is not None and key_[1] == cur) or (cur is None and "DEFAULT" in key_[1]):
+                    isret = v
+        key = (r.ret, none_r, none_d, isret)
+        if key in seen_f:
+            continue
+        seen_f.add(key)
+        if none_r is True and none_d is False:
+            want_src = pd
+        elif none_r is True:
+            want_src = None  # class default
+        else:
+            want_src = pr
+        if isret is True:
+            ok = (r.ret == want_src) if want_src else ("DEFAULT" in r.ret)
+            ctx.ob(R1, fint.qual, f"from_int: a Retry instance ({'retries' if want_src == pr else 'default' if want_src == pd else 'class default'}) is returned unchanged", ok,
+                   "" if ok else f"returns {r.ret}: an explicit policy (or the configured default) is replaced", witness=r.witness(), node=fint.node)
+        else:
+            ok = op in ("new:cls", "new:Retry")
+            first = args[0] if args else ""
+            ok = bool(ok) and (first == want_src if want_src else "DEFAULT" in first)
+            ctx.ob(R1, fint.qual, f"from_int: a non-Retry value is converted from {'the retries argument' if want_src == pr else 'the default' if want_src == pd else 'the class default'}", ok,
+                   "" if ok else f"returns {r.ret}: None must fall back to the default, then to Retry.DEFAULT", witness=r.witness(), node=fint.node)
+            # the redirect flag: truthy -> None (the redirect budget is left to total), falsy -> False (no redirects)
+            t = r.truth(prd)
+            rd = [a for a in args if a.startswith("redirect=")]
+            want = {True: ("redirect=None",), False: ("redirect=False",)}.get(t, ())
+            okr = bool(rd) and rd[0] in want
+            ctx.ob(R3_from_int(ctx), fint.qual, f"from_int: redirect flag truthy={t} -> {rd[0] if rd else 'missing'}", okr,
+                   "" if okr else "a false redirect flag must become redirect=False (budget 0, 3xx handed back), a true one None", witness=r.witness(), node=fint.node)
     # the pool hands the policy in effect back on the response (the manager's hop may rely on it)
     mr = m.method(f"{CP}.HTTPConnectionPool", "_make_request")
     ok = any(isinstance(n, ast.Assign) and isinstance(n.targets[0], ast.Attribute) and n.targets[0].attr == "retries" and astq.text(n.value) == "retries"
@@ -157,41 +198,75 @@ def run(ctx):
         ok = r is not None and r.kind == "const" and r.val is False and a is not None and a.kind == "const" and a.val is False
         ctx.ob(R3, fi.qual, f"`{astq.text(s.node)[:50]}` carries redirect=False, assert_same_host=False", ok,
                "" if ok else "the pool would follow redirects on the manager's behalf (without the cross-origin header strip) or refuse cross-host hops", node=s.node)
-    # Retry.__init__ rows
+    # Retry.__init__ rows: redirect=False or total=False => redirect budget 0 and raise_on_redirect False (effect rows)
     init = m.method(RETRY, "__init__")
-
-    class InitRule(BaseRule):
-        pass
-
-    for label, params in (("redirect=False", {"redirect": const(False), "total": AV("unk", sym="p:total")}),
-                          ("total=False", {"total": const(False), "redirect": AV("unk", sym="p:redirect")})):
-        outs_i, it = run_function(m, init, InitRule(), RETRY, params=params)
-        nn = 0
-        for o in outs_i:
-            if o.kind == "raise":
+    irows = [r for r in effect_rows(ctx, init, GenRule(ctx, init.module), RETRY) if r.returns]
+    ctx.sites(R3, len(irows), 2, "rows of Retry.__init__")
+    seen_i = set()
+    n_dis = 0
+    for r in irows:
+        rf, tf = r.cmp("p:redirect", "is", "False"), r.cmp("p:total", "is", "False")
+        stores = {e[2]: e[3] for e in r.events("store") if e[1] == "self"}
+        key = (rf, tf, stores.get("redirect"), stores.get("raise_on_redirect"))
+        if key in seen_i:
+            continue
+        seen_i.add(key)
+        disabled = rf is True or tf is True
+        if disabled:
+            n_dis += 1
+            ok = stores.get("redirect") == "0" and stores.get("raise_on_redirect") == "False"
+            ctx.ob(R3, init.qual, f"Retry(redirect is False={rf}, total is False={tf}) -> redirect budget 0, raise_on_redirect False", ok,
+                   "" if ok else f"stores redirect={stores.get('redirect')}, raise_on_redirect={stores.get('raise_on_redirect')}: a disabled policy would follow (or raise on) a redirect", witness=r.witness(), node=init.node)
+        elif rf is False and tf is False:
+            ok = stores.get("redirect") == "p:redirect" and stores.get("raise_on_redirect") == "p:raise_on_redirect"
+            ctx.ob(R3, init.qual, "an enabled policy keeps its redirect budget and raise_on_redirect", ok,
+                   "" if ok else f"stores redirect={stores.get('redirect')}, raise_on_redirect={stores.get('raise_on_redirect')}", witness=r.witness(), node=init.node)
+    ctx.sites(R3, n_dis, 1, "rows of Retry.__init__ with redirects disabled")
+    # the two disabling inputs, each fixed to the constant False: every row must end with budget 0 / no raise
+    for label, fixed in (("redirect=False", {"redirect": const(False)}), ("total=False", {"total": const(False)})):
+        drows = [r for r in effect_rows(ctx, init, GenRule(ctx, init.module), RETRY, params=fixed) if r.returns]
+        ctx.sites(R3, len(drows), 1, f"rows of Retry.__init__ with {label}")
+        seen_d = set()
+        for r in drows:
+            stores = {e[2]: e[3] for e in r.events("store") if e[1] == "self"}
+            key = (stores.get("redirect"), stores.get("raise_on_redirect"))
+            if key in seen_d:
                 continue
-            nn += 1
-            rd = o.st.heap.get(("self", "redirect"))
-            ror = o.st.heap.get(("self", "raise_on_redirect"))
-            ok = rd is not None and rd.kind == "const" and rd.val == 0 and rd.val is not False and ror is not None and ror.kind == "const" and ror.val is False
+            seen_d.add(key)
+            ok = stores.get("redirect") == "0" and stores.get("raise_on_redirect") == "False"
             ctx.ob(R3, init.qual, f"Retry({label}) -> redirect budget 0, raise_on_redirect False", ok,
-                   "" if ok else f"redirect={rd.val if rd is not None and rd.kind == 'const' else rd}, raise_on_redirect={ror.val if ror is not None and ror.kind == 'const' else ror}", node=init.node)
-        ctx.sites(R3, nn, 1, f"normal exits of Retry.__init__ with {label}")
-    ok = "redirect = bool(redirect) and None" in astq.text(fint.node) and "cls(retries, redirect=redirect)" in astq.text(fint.node)
-    ctx.ob(R3, fint.qual, "from_int maps a false redirect flag to redirect=False (hence budget 0), a true one to None (inherit total)", ok)
+                   "" if ok else f"stores redirect={stores.get('redirect')}, raise_on_redirect={stores.get('raise_on_redirect')}: with {label} a redirect would still be followed (or raise)", witness=r.witness(), node=init.node)
     # _prepare_for_method_change
     pm = m.method("urllib3._collections.HTTPHeaderDict", "_prepare_for_method_change")
     names = set()
+    discards_each = False
     for n in astq.walk_fn(pm.node):
-        if isinstance(n, (ast.List, ast.Tuple, ast.Set)):
-            try:
-                names |= {x.lower() for x in fold.ev(n, pm.module) if isinstance(x, str)}
-            except Exception:
-                pass
+        if isinstance(n, ast.For):
+            # the iterable: a literal, or a name that folds to a constant sequence (local or module level)
+            vals = None
+            cands = [n.iter] + (astq.sources_of(pm.node, n.iter) if isinstance(n.iter, ast.Name) else [])
+            for cnd in cands:
+                try:
+                    vals = fold.ev(cnd, pm.module)
+                    break
+                except Exception:
+                    continue
+            if vals is None and isinstance(n.iter, ast.Name):
+                vals = fold.try_module_const(pm.module, n.iter.id)
+            if isinstance(vals, (list, tuple, set, frozenset)):
+                body_calls = [c for c in astq.calls(ast.Module(body=n.body, type_ignores=[])) if isinstance(c.func, ast.Attribute) and c.func.attr in ("discard", "pop", "__delitem__")
+                              and c.args and astq.text(c.args[0]) == astq.text(n.target)]
+                body_dels = [d for d in ast.walk(ast.Module(body=n.body, type_ignores=[])) if isinstance(d, ast.Delete)]
+                if body_calls or body_dels:
+                    discards_each = True
+                    names |= {x.lower() for x in vals if isinstance(x, str)}
+    for c in astq.calls(pm.node):
+        if isinstance(c.func, ast.Attribute) and c.func.attr in ("discard", "pop") and c.args and isinstance(c.args[0], ast.Constant) and isinstance(c.args[0].value, str):
+            names.add(c.args[0].value.lower())
+            discards_each = True
     need = {"content-length", "content-type", "content-encoding", "content-language", "content-location"}
     ctx.ob(R4, pm.qual, f"content headers discarded include {sorted(need)}", need <= names, f"missing {sorted(need - names)}")
-    disc = [c for c in astq.calls(pm.node) if astq.call_text(c) in ("self.discard", "self.pop") or (isinstance(c.func, ast.Attribute) and c.func.attr in ("discard", "pop"))]
-    ctx.ob(R4, pm.qual, "each listed header is discarded", bool(disc) and astq.enclosing(disc[0], ast.For) is not None)
+    ctx.ob(R4, pm.qual, "each listed header is discarded", discards_each)
 
     # ------------------------------------------------------------------ R5 exhaustion
     R5 = ctx.rule("C05-R5", "when the budget runs out: MaxRetryError from increment(response=...) is re-raised only if raise_on_redirect / raise_on_status, after draining the response; otherwise the last response is returned", "E4, both siblings")
@@ -225,16 +300,31 @@ def run(ctx):
     rs = fold.need_class(f"{RS}.BaseHTTPResponse", "REDIRECT_STATUSES")
     ctx.ob(R7, f"{RS}.BaseHTTPResponse", f"REDIRECT_STATUSES == [301, 302, 303, 307, 308]", set(rs) == {301, 302, 303, 307, 308}, f"folds to {sorted(rs)}")
     grl = m.method(f"{RS}.BaseHTTPResponse", "get_redirect_location")
-    rets = [r for r in astq.walk_fn(grl.node) if isinstance(r, ast.Return)]
-    ok = False
-    for r in rets:
-        if isinstance(r.value, ast.Call) and "headers.get" in astq.call_text(r.value):
-            g = astq.enclosing(r, ast.If)
-            ok = g is not None and astq.text(g.test) == "self.status in self.REDIRECT_STATUSES" and astq.in_body_of(r, g, "body") \
-                and r.value.args and isinstance(r.value.args[0], ast.Constant) and r.value.args[0].value.lower() == "location"
-    ctx.ob(R7, grl.qual, "the Location header is returned only under membership in REDIRECT_STATUSES", ok)
-    other = [r for r in rets if isinstance(r.value, ast.Constant)]
-    ctx.ob(R7, grl.qual, "any other status yields False", any(r.value.value is False for r in other))
+    grows = [r for r in effect_rows(ctx, grl, GenRule(ctx, grl.module), f"{RS}.BaseHTTPResponse") if r.returns]
+    ctx.sites(R7, len(grows), 2, "rows of get_redirect_location")
+    n_in = n_out = 0
+    for r in grows:
+        member = None
+        for k, v in r.st.ts.items():
+            if isinstance(k, tuple) and len(k) == 4 and k[0] == "cmp" and k[1] == "self.status" and k[2] == "in" and "REDIRECT_STATUSES" in k[3]:
+                member = v
+            if isinstance(k, tuple) and len(k) == 4 and k[0] == "cmp" and k[1] == "self.status" and k[2] == "in" and k[3].startswith(("(", "[", "frozenset", "{")):
+                member = v
+        if member is True:
+            n_in += 1
+            ok = r.ret in (T("self.headers.get", "'location'"), T("self.headers.get", "'Location'"), T("get", "self.headers", "'location'"), T("get", "self.headers", "'Location'"))
+            ctx.ob(R7, grl.qual, "a redirect status reports the Location header", ok, "" if ok else f"returns {r.ret}", witness=r.witness(), node=grl.node)
+        elif member is False:
+            n_out += 1
+            ctx.ob(R7, grl.qual, "any other status yields False", r.ret == "False", "" if r.ret == "False" else f"returns {r.ret}: a Location is reported for a status that is not a redirect", witness=r.witness(), node=grl.node)
+        else:
+            ctx.ob(R7, grl.qual, "the Location header is returned only under membership in REDIRECT_STATUSES", False, f"a row returns {r.ret} without testing the status against REDIRECT_STATUSES", witness=r.witness(), node=grl.node)
+    ctx.sites(R7, n_in, 1, "rows for redirect statuses")
+    ctx.sites(R7, n_out, 1, "rows for other statuses")
+
+
+def R3_from_int(ctx):
+    return "C05-R3"
 
 
 # ---------------------------------------------------------------------------- R8 shared with C04 (added after seeded change C05/disabled-total-stays-false)
